@@ -64,6 +64,8 @@ def run_case(case):
     wd = cli.scratch("c05")
     n, steps, P, fam = case["n"], case["steps"], case["P"], case["family"]
     o = dict(GridSize=n, StepsPerTs=steps, InitialDistZoom=1.0, InterpolationPoints=case["it"], derivation=case["deriv"], **FAM[fam])
+    if case.get("shiftx") or case.get("shifty"):
+        o["PhaseSpaceShiftX"], o["PhaseSpaceShiftY"] = case.get("shiftx", 0.0), case.get("shifty", 0.0)
     d = cfggen.derive(o)
     if fam == "file":
         N = d["padded_bins"]
@@ -140,6 +142,12 @@ def run_case(case):
                            (b, res2, 1.2 * tol, wrong2, res, fam, D, D2, n), sig="c05:haissinski_refwake:%s" % ("sign" if wrong2 < res2 else "strength"), metrics=met)
     cls.append("D>0.3" if met["D"] > 0.3 else "D<=0.3")
     D = met["D"]
+    # "the energy distribution stays the unit Gaussian": centred on zero energy, width one - wherever the grid is centred
+    me = np.abs(h["/EnergyAverage/data"][-1].astype(np.float64)).max()
+    met["emean"] = me / (0.01 + 0.03 * D)
+    if me > 0.01 + 0.03 * D:
+        return Outcome(False, nontriv, cls, "energy distribution of the stationary bunch is centred at %.4f instead of 0 (D=%.3f %s, grid shifts %s/%s)" %
+                       (me, D, fam, case.get("shiftx", 0.0), case.get("shifty", 0.0)), sig="c05:emean", metrics=met)
     sp = float(h["/EnergySpread/data"][-1, 0])
     tau = (0.5 if case["deriv"] == 3 else 0.1) * delta ** 2 + 0.003 + 0.005 + 0.03 * D
     met["espread_dev"] = abs(sp - 1) / tau
@@ -172,7 +180,9 @@ def cases(draw, fast=True):
                 it=it, deriv=draw(st.sampled_from([3, 4])),
                 zr=float(10 ** draw(st.floats(1, 3))), zl=float(draw(st.floats(-1, 1))),
                 ratio=(draw(st.sampled_from([0.2, 0.3, 0.5])) if two else 0.0),
-                first_strong=draw(st.booleans()), sps=draw(st.floats(1.1, 1.8)))
+                first_strong=draw(st.booleans()), sps=draw(st.floats(1.1, 1.8)),
+                shiftx=(gen.f32(draw(st.floats(-6, 6))) if draw(st.integers(0, 2)) == 0 else 0.0),
+                shifty=(gen.f32(draw(st.floats(-6, 6))) if draw(st.integers(0, 2)) == 0 else 0.0))
 
 
 def subs(tier):
